@@ -537,7 +537,9 @@ def _enum_of(fn, nid, en):
 def _allowed_status(fn, nid, sf, en):
     allowed = {e['name'] for e in en['enumerators']}
     for (c, sense, _b) in guards_of(fn, nid):
-        cn = fn.sn(c)
+        cn, pos = _resolve_bool(fn, c)
+        if not pos:
+            sense = not sense
         if cn is None or cn.get('k') != 'binop' or cn['op'] not in ('==', '!='):
             continue
         if _is_status_member(fn, cn['lhs'], sf):
@@ -1075,15 +1077,19 @@ def rule_parser_input_loops(fb, R):
             for b in f.blocks.values():
                 if 'cond' not in b or len(b['succs']) != 2 or not f.in_range(b['cond'], l['b'], l['e']):
                     continue
-                sc = [f.nodes[x] for x in f.subtree(b['cond']) if f.nodes[x].get('k') == 'call' and 'q' in f.nodes[x]
-                      and _state_call(fb, f, f.nodes[x], memo)]
+                rn, rpos = _resolve_bool(f, b['cond'])
+                root = rn['id'] if rn is not None else b['cond']
+                sc = [f.nodes[x] for x in f.subtree(root) if f.nodes[x].get('k') == 'call' and 'q' in f.nodes[x]
+                      and f.in_range(x, l['b'], l['e']) and _state_call(fb, f, f.nodes[x], memo)]
                 if not sc:
                     continue
                 leaving = [i for i, s in enumerate(b['succs'])
                            if s is not None and path_search(f, s, _exit_t, lambda e: e in raw_el, from_block_start=True) is not None]
                 # polarity, where it can be evaluated: with the queue shut down (in_use() == false) the condition must send
                 # control along a leaving edge (succs[0] is the true edge)
-                v = _eval_shut_down(fb, f, b['cond'])
+                v = _eval_shut_down(fb, f, root)
+                if v is not None and not rpos:
+                    v = not v
                 if v is not None:
                     leaving = [i for i in leaving if i == (0 if v else 1)]
                 if leaving:
